@@ -8,6 +8,8 @@ import (
 	"github.com/spf13/cobra"
 )
 
+var mergecomparedfile string
+
 // mergeCmd represents the merge command
 var mergeCmd = &cobra.Command{
 	Use:   "merge",
@@ -34,7 +36,7 @@ Edges connecting new root with old roots have length of 1.0.
 			io.LogError(err)
 			return
 		}
-		if comptree, err = readTree(intree2file); err != nil {
+		if comptree, err = readTree(mergecomparedfile); err != nil {
 			io.LogError(err)
 			return
 		}
@@ -61,6 +63,6 @@ Edges connecting new root with old roots have length of 1.0.
 func init() {
 	RootCmd.AddCommand(mergeCmd)
 	mergeCmd.PersistentFlags().StringVarP(&intreefile, "reftree", "i", "stdin", "Reference tree input file")
-	mergeCmd.PersistentFlags().StringVarP(&intree2file, "compared", "c", "stdin", "Compared tree input file")
+	mergeCmd.PersistentFlags().StringVarP(&mergecomparedfile, "compared", "c", "stdin", "Compared tree input file")
 	mergeCmd.PersistentFlags().StringVarP(&outtreefile, "output", "o", "stdout", "Merged tree output file")
 }
